@@ -15,12 +15,12 @@ open AgVerif.Spec.ReachDef
 /-! ### Python containers -/
 
 /-- `a | b` on sets -/
-def uni (a b : List Loc) : List Loc := a ++ b.filter (fun x => !a.contains x)
+def uni (a b : List Int) : List Int := a ++ b.filter (fun x => !a.contains x)
 
-def subset (a b : List Loc) : Bool := a.all (fun x => b.contains x)
+def subset (a b : List Int) : Bool := a.all (fun x => b.contains x)
 
 /-- `a == b` on sets -/
-def setEq (a b : List Loc) : Bool := subset a b && subset b a
+def setEq (a b : List Int) : Bool := subset a b && subset b a
 
 /-- `defaultdict(list)[k].extend(vs)` -/
 def dictExtend {K V} [DecidableEq K] : List (K × List V) → K → List V → List (K × List V)
@@ -33,7 +33,7 @@ def dictGet {K V} [DecidableEq K] : List (K × List V) → K → List V
   | (k', l) :: D, k => if k' = k then l else dictGet D k
 
 /-- `max(values)` of a set; Python raises on the empty set -/
-def maxL? : List Loc → Option Loc
+def maxL? : List Int → Option Int
   | [] => none
   | a :: l => some (l.foldl (fun m x => if m < x then x else m) a)
 
@@ -53,47 +53,47 @@ def sucsA (g : Prog) (v : Nat) : List Nat :=
   (g.edges[v]?).getD [] ++ (if g.exit = some v then [nOrig g] else []) ++ (g.cedges[v]?).getD []
 
 /-- `zip(range(*ins_range), ins)` -/
-def number : Nat → List Stmt → List (Loc × Stmt)
+def number : Nat → List Stmt → List (Int × Stmt)
   | _, [] => []
   | k, s :: ss => ((k : Int), s) :: number (k + 1) ss
 
-def locIns (g : Prog) (v : Nat) : List (Loc × Stmt) := number (start g v) (stmts g v)
+def locIns (g : Prog) (v : Nat) : List (Int × Stmt) := number (start g v) (stmts g v)
 
 /-- `enumerate(params, 1)` → `(param, -loc)` -/
-def numberParams : Nat → List Reg → List (Reg × Loc)
+def numberParams : Nat → List Reg → List (Reg × Int)
   | _, [] => []
   | k, p :: ps => (p, -((k : Nat) : Int)) :: numberParams (k + 1) ps
 
-def paramDefs (g : Prog) : List (Reg × Loc) := numberParams 1 g.params
+def paramDefs (g : Prog) : List (Reg × Int) := numberParams 1 g.params
 
 /-- the `(kill, i)` pairs `__init__` records for node `v` -/
-def nodeDefs (g : Prog) (v : Nat) : List (Reg × Loc) :=
+def nodeDefs (g : Prog) (v : Nat) : List (Reg × Int) :=
   (locIns g v).filterMap (fun p => p.2.lhs.map (fun x => (x, p.1)))
 
-def allDefs (g : Prog) : List (Reg × Loc) :=
+def allDefs (g : Prog) : List (Reg × Int) :=
   paramDefs g ++ (List.range (nA g)).flatMap (nodeDefs g)
 
 /-- `self.def_to_loc[x]` -/
-def defToLoc (g : Prog) (x : Reg) : List Loc :=
+def defToLoc (g : Prog) (x : Reg) : List Int :=
   ((allDefs g).filter (fun p => p.1 == x)).map (·.2)
 
 /-- `self.defs[node][x]` -/
-def defsOfNode (g : Prog) (v : Nat) (x : Reg) : List Loc :=
+def defsOfNode (g : Prog) (v : Nat) (x : Reg) : List Int :=
   ((nodeDefs g v).filter (fun p => p.1 == x)).map (·.2)
 
 /-- keys of `self.defs[node]` (with repetitions) -/
 def regsOfNode (g : Prog) (v : Nat) : List Reg := (nodeDefs g v).map (·.1)
 
 /-- `self.DB[node]` -/
-def DB (g : Prog) (v : Nat) : List Loc :=
+def DB (g : Prog) (v : Nat) : List Int :=
   (regsOfNode g v).filterMap (fun x => maxL? (defsOfNode g v x))
 
 /-- `killed_locs` of `run` -/
-def killed (g : Prog) (v : Nat) : List Loc := (regsOfNode g v).flatMap (defToLoc g)
+def killed (g : Prog) (v : Nat) : List Int := (regsOfNode g v).flatMap (defToLoc g)
 
 /-- contribution of the dummy entry node: `A[entry] = set(range(-1, -len(params)-1, -1))`, and the dummy
     entry is a predecessor of the old entry only -/
-def initOf (g : Prog) (v : Nat) : List Loc :=
+def initOf (g : Prog) (v : Nat) : List Int :=
   if v = g.entry then (paramDefs g).map (·.2) else []
 
 /-- `graph.all_preds(node)` restricted to `graph.rpo` -/
@@ -101,11 +101,11 @@ def predsOf (g : Prog) (v : Nat) : List Nat :=
   (List.range (nA g)).filter (fun p => (sucsA g p).contains v)
 
 /-- `newR`: union of `A[pred]` over all predecessors (dummy entry included) -/
-def inSet (g : Prog) (A : Nat → List Loc) (v : Nat) : List Loc :=
+def inSet (g : Prog) (A : Nat → List Int) (v : Nat) : List Int :=
   (predsOf g v).foldl (fun acc p => uni acc (A p)) (initOf g v)
 
 /-- `newA = {loc ∈ R[node] | loc ∉ killed_locs} ∪ DB[node]` -/
-def outSet (g : Prog) (v : Nat) (R : List Loc) : List Loc :=
+def outSet (g : Prog) (v : Nat) (R : List Int) : List Int :=
   let k := killed g v
   uni (R.filter (fun l => !k.contains l)) (DB g v)
 
@@ -114,12 +114,12 @@ def pushAll (wl : List Nat) (ss : List Nat) : List Nat :=
   ss.foldl (fun acc s => if acc.contains s then acc else acc ++ [s]) wl
 
 structure St where
-  R : Nat → List Loc
-  A : Nat → List Loc
+  R : Nat → List Int
+  A : Nat → List Int
   wl : List Nat
   steps : Nat
 
-def upd (f : Nat → List Loc) (v : Nat) (x : List Loc) : Nat → List Loc :=
+def upd (f : Nat → List Int) (v : Nat) (x : List Int) : Nat → List Int :=
   fun w => if w = v then x else f w
 
 /-- one iteration of the `while nodes:` loop -/
@@ -159,13 +159,13 @@ def analysis (g : Prog) : St := run g (bound g) (init g)
 
 /-! ### `build_def_use` -/
 
-abbrev Dict := List ((Reg × Loc) × List Loc)
+abbrev Dict := List ((Reg × Int) × List Int)
 
 /-- running maximum `prior_def` over `defs[node][var]` -/
-def priorDef (ds : List Loc) (i : Loc) : Loc :=
+def priorDef (ds : List Int) (i : Int) : Int :=
   ds.foldl (fun pd v => if pd < v ∧ v < i then v else pd) (-1)
 
-def udVar (g : Prog) (R : Nat → List Loc) (v : Nat) (i : Loc) (UD : Dict) (x : Reg) : Dict :=
+def udVar (g : Prog) (R : Nat → List Int) (v : Nat) (i : Int) (UD : Dict) (x : Reg) : Dict :=
   if (defToLoc g x).isEmpty then UD
   else
     let pd := priorDef (defsOfNode g v x) i
@@ -174,13 +174,13 @@ def udVar (g : Prog) (R : Nat → List Loc) (v : Nat) (i : Loc) (UD : Dict) (x :
       let r := R v
       dictExtend UD (x, i) ((defToLoc g x).filter (fun d => r.contains d))
 
-def udStmt (g : Prog) (R : Nat → List Loc) (v : Nat) (UD : Dict) (p : Loc × Stmt) : Dict :=
+def udStmt (g : Prog) (R : Nat → List Int) (v : Nat) (UD : Dict) (p : Int × Stmt) : Dict :=
   p.2.uses.foldl (udVar g R v p.1) UD
 
-def udNode (g : Prog) (R : Nat → List Loc) (UD : Dict) (v : Nat) : Dict :=
+def udNode (g : Prog) (R : Nat → List Int) (UD : Dict) (v : Nat) : Dict :=
   (locIns g v).foldl (udStmt g R v) UD
 
-def buildUD (g : Prog) (R : Nat → List Loc) : Dict :=
+def buildUD (g : Prog) (R : Nat → List Int) : Dict :=
   (List.range (nOrig g)).foldl (udNode g R) []
 
 def buildDU (UD : Dict) : Dict :=
